@@ -17,7 +17,7 @@ for d in sorted(glob.glob("/tmp/seed/out-C*/[ab]")):
     for f in ("patch.diff", "demo_test.go", "README.md"):
         if os.path.exists(os.path.join(d, f)):
             shutil.copy(os.path.join(d, f), dst)
-    c = subprocess.run([V + "/bin/seedconfirm.sh", dst], capture_output=True, text=True).stdout
+    c = subprocess.run([V + "/bin/seedconfirm.sh", dst], capture_output=True, text=True, errors="replace").stdout
     m = re.search(r"CONFIRM \S+ (.*)", c)
     conf = m.group(1).strip() if m else c.strip()[-200:]
     status = "valid" if conf.endswith("VALID") and "INVALID" not in conf else ("conflict" if "PATCH-CONFLICT" in conf else "invalid")
@@ -25,7 +25,7 @@ for d in sorted(glob.glob("/tmp/seed/out-C*/[ab]")):
     if status == "valid":
         extra = {"C04-b": ["C14"], "C13-a": ["C12"], "C12-b": ["C13"], "C08-a": ["C18", "C19"], "C10-a": ["C04"], "C09-a": ["C02"]}.get(sid, [])
         for chk in [prop] + extra:
-            r = subprocess.run([V + "/bin/seedrun.sh", os.path.join(dst, "patch.diff"), "quick", chk], capture_output=True, text=True).stdout
+            r = subprocess.run([V + "/bin/seedrun.sh", os.path.join(dst, "patch.diff"), "quick", chk], capture_output=True, text=True, errors="replace").stdout
             mm = re.search(r"rc=(\d+) :: (.*)", r)
             det[chk] = dict(rc=int(mm.group(1)) if mm else -1, first=(mm.group(2)[:300] if mm else r[-300:]))
     readme = open(os.path.join(dst, "README.md")).read() if os.path.exists(os.path.join(dst, "README.md")) else ""
